@@ -13,6 +13,7 @@ import RbModel.Lemmas.GposMark
 import RbModel.Lemmas.Kerx
 import RbModel.Lemmas.GposDevice
 import RbModel.Gen.Gpos
+import RbModel.Gen.GposLigComp
 import RbModel.Lemmas.PairSpanBridge
 
 namespace RbModel.Gpos
@@ -379,7 +380,7 @@ theorem C07_lig_component (lig cur : Info) (n : Nat) (hn : 0 < n) :
     ((Gsub.ligId lig ≠ 0 ∧ Gsub.ligId lig = Gsub.ligId cur ∧ 0 < Gsub.ligComp cur) →
       ligComponent lig cur n = min (Gsub.ligComp cur) n - 1) ∧
     (¬ (Gsub.ligId lig ≠ 0 ∧ Gsub.ligId lig = Gsub.ligId cur ∧ 0 < Gsub.ligComp cur) → ligComponent lig cur n = n - 1) := by
-  unfold ligComponent
+  unfold ligComponent ligComponentSel
   refine ⟨?_, ?_, ?_⟩
   · split <;> omega
   · rintro ⟨h1, h2, h3⟩
@@ -391,6 +392,64 @@ theorem C07_lig_component (lig cur : Info) (n : Nat) (hn : 0 < n) :
       simp only [Bool.and_eq_true, bne_iff_ne, ne_eq, beq_iff_eq, decide_eq_true_eq] at hc
       exact absurd ⟨hc.1.1, hc.1.2, hc.2⟩ h
     · rfl
+
+/-- The component computation is total: for EVERY ligature id, component number and component count ≥ 1 (the code turns
+    `comp_count == 0` away first) the u16 value the code subtracts 1 from is between 1 and the component count, so `- 1`
+    never underflows — neither the trap of the overflow-checked build nor the wrapped index 65535 of the release build can
+    occur — and the chosen component is one the font describes.  The case that needs the code's `mark_comp > 0` test: a
+    glyph with component number 0 (a glyph that is itself a ligature base — every output of a MultipleSubst applied to a
+    ligature glyph keeps the ligature's id and is one) is attached to the LAST component, whatever the two ids are. -/
+theorem C07_marklig_component_total (lig cur : Info) (n : Nat) (hn : 0 < n) :
+    1 ≤ ligComponentSel lig cur n ∧ ligComponentSel lig cur n ≤ n ∧
+    ligComponent lig cur n + 1 = ligComponentSel lig cur n ∧ ligComponent lig cur n < n ∧
+    (Gsub.ligComp cur = 0 → ligComponent lig cur n = n - 1) ∧
+    (Gsub.ligatedInternal cur = true → ligComponent lig cur n = n - 1) := by
+  have hsel : 1 ≤ ligComponentSel lig cur n ∧ ligComponentSel lig cur n ≤ n := by
+    unfold ligComponentSel
+    split
+    · rename_i hc
+      simp only [Bool.and_eq_true, decide_eq_true_eq] at hc
+      omega
+    · omega
+  have h0 : Gsub.ligComp cur = 0 → ligComponent lig cur n = n - 1 := by
+    intro hz
+    unfold ligComponent ligComponentSel
+    simp [hz]
+  refine ⟨hsel.1, hsel.2, ?_, ?_, h0, ?_⟩
+  · unfold ligComponent; omega
+  · unfold ligComponent; omega
+  · intro hb
+    apply h0
+    unfold Gsub.ligComp
+    simp [hb]
+
+/-- non-vacuity / the case itself: ligature L (id 1, two components) expanded by a MultipleSubst into <L, X>: X keeps id 1 and
+    is a ligature base (component number 0); a MarkToLigature lookup with X in its mark coverage attaches X to the LAST
+    component of L (anchor 400) -/
+example : ((applyForward [.markLig [7] [4] [(0, 50, 0)] [{ rows := 2, cols := 1, flat := [some (100, 700), some (400, 700)] }]]
+      2 { font := {}, info := [{ gid := 4, mask := 1, var1 := 0x62 + (32 + 16 + 2) * 65536 },
+                                { gid := 7, mask := 1, var1 := 0x52 + (32 + 16 + 2) * 65536 }],
+          len := 2, pos := #[{ xa := 600 }, { xa := 600 }] }).toOption.map (·.pos)) =
+    some #[{ xa := 600 }, { xa := 600, xo := 350, yo := 700, chain := -1, atype := 1 }] := by
+  decide +kernel
+
+/-- The compiled crate chooses the component the model chooses: `Gen.GposLigComp.rows` is regenerated on every run by
+    running the real `MarkToLigatureAdjustment::apply` on <ligature, mark> for every relation of the two ligature ids
+    (equal, different, zero on either side) x all 32 values of the low five bits of the mark's lig_props (every component
+    number, with and without the ligature-base bit) x component counts 1, 2, 3, 4, 15, 16, 17; each row records the component
+    whose anchor the mark received (0 = the lookup did not apply).  Every probe must apply, on the model's component. -/
+theorem C07_gen_marklig_component :
+    RbModel.Gen.GposLigComp.rows.all (fun (l, m, n, got) =>
+      got == ligComponent { gid := 1, var1 := 4 + l * 65536 } { gid := 2, var1 := 8 + m * 65536 } n + 1) = true := by
+  decide +kernel
+
+/-- the table is not empty and reaches the case of `C07_marklig_component_total`: equal non-zero ids, the mark a ligature
+    base (component number 0), more than one component -/
+theorem C07_gen_marklig_component_covers :
+    RbModel.Gen.GposLigComp.rows.length = 1344 ∧
+    RbModel.Gen.GposLigComp.rows.any (fun (l, m, n, _) => l / 32 == m / 32 && l / 32 != 0 && m &&& 16 != 0 && n > 1) = true ∧
+    RbModel.Gen.GposLigComp.rows.any (fun (l, m, n, _) => l / 32 == m / 32 && l / 32 != 0 && m % 32 == 0 && n > 1) = true := by
+  decide +kernel
 
 /-- One MarkToBase application: the same with the base anchor of the mark's class. -/
 theorem C07_mark_base_call {c c' : Ctx} {mc bc : Gsub.Cov} {marks : MarkArray} {anchors : Matrix} {applied : Bool}
